@@ -25,6 +25,39 @@ MIN_VERTEX_REL = 1e-3  # no vertex of one operand this close to the other bounda
 
 
 # ------------------------------------------------------------------ applying
+def build_operand(spec, pre=None):
+    """
+    library object for a spec.  With `pre` = {"v": [vx, vy], "s": factor}
+    (rational polygons only, where move/scale are exact) the object is first
+    built displaced and scaled, asked a few questions (which warms whatever
+    the library caches), and then brought into place with the library's own
+    in-place move/scale: the operand an operator sees then has a history, as
+    in real use, while the model is unchanged.
+    """
+    if not pre or spec["k"] in ("empty", "whole"):
+        return lib.build(spec)
+    curves = lib.spec_curves(spec)
+    if not all(rg.curve_is_exact(c) and rg.curve_is_polygon(c) for c in curves):
+        return lib.build(spec)
+    vx, vy = pre["v"]
+    f = F(pre.get("s", 1))
+    there = lib.spec_map(spec, lambda p: ((p[0] + vx) * f, (p[1] + vy) * f))
+    obj = lib.build(there)
+    Sp = lib.sp()
+    _ = (vx, vy) in obj
+    obj.box()
+    float(obj)
+    for j in obj.jordans:
+        float(j)
+        j.box()
+    Sp.IntegrateShape.polynomial(obj, 1, 0)
+    Sp.IntegrateShape.polynomial(obj, 0, 1)
+    if f != 1:
+        obj.scale(1 / f, 1 / f)
+    obj.move(-vx, -vy)
+    return obj
+
+
 def apply_op(op, A, B):
     if op == "|":
         return A | B
@@ -273,7 +306,12 @@ def operand_pair(draw, curved=False, kinds=None, nk=None):
     # a lattice shift of B by a drawn fraction makes exact contact unlikely
     b = draw(S.shape_spec(nkk, deg, center=off, R=rb, kinds=kinds, templates=False))
     us = draw(st.lists(st.floats(0.0, 1.0), min_size=12, max_size=12))
-    return {"a": a, "b": b, "config": config, "us": us, "nk": nkk, "deg": list(deg)}
+    out = {"a": a, "b": b, "config": config, "us": us, "nk": nkk, "deg": list(deg)}
+    if nkk in ("int", "frac") and draw(st.integers(0, 2)) == 0:
+        # operands with a history: built elsewhere, queried, moved into place
+        out["pre_a"] = {"v": [draw(st.integers(-40, 40)), draw(st.integers(-40, 40))], "s": draw(st.sampled_from([1, 1, 2, F(1, 2)]))}
+        out["pre_b"] = {"v": [draw(st.integers(-40, 40)), draw(st.integers(-40, 40))], "s": draw(st.sampled_from([1, 1, 3]))}
+    return out
 
 
 @st.composite
